@@ -143,6 +143,22 @@ def _fold_some(rng, a):
             pass
 
 
+def _csr(v):
+    return (int(v.shape[1]), str(v.dtype), [(int(i), str(fpgen.fr(x))) for i, x in zip(v.indices, v.data)])
+
+
+WARMUPS = [('to_bitvector(sparse=True)', lambda f: f.to_bitvector(sparse=True)),
+           ('to_vector(sparse=True, dtype=bool)', lambda f: f.to_vector(sparse=True, dtype=bool)),
+           ('to_vector(sparse=True)', lambda f: f.to_vector(sparse=True)),
+           ('to_vector(sparse=True, dtype=float)', lambda f: f.to_vector(sparse=True, dtype=float)),
+           ('to_rdkit()', lambda f: f.to_rdkit()),
+           ('pickle.dumps', lambda f: pickle.dumps(f)),
+           ('get_count/mean', lambda f: (f.get_count(0), f.mean()))]
+VIEWS = [('to_bitvector(sparse=True)', lambda f: _csr(f.to_bitvector(sparse=True))),
+         ('to_vector(sparse=True)', lambda f: _csr(f.to_vector(sparse=True))),
+         ('to_vector(sparse=True, dtype=float)', lambda f: _csr(f.to_vector(sparse=True, dtype=float)))]
+
+
 def identity_shared(orig, cp, path='fp', depth=0):
     """names of mutable containers that the copy shares with the original (recursively through the fold caches)."""
     shared = []
@@ -202,6 +218,12 @@ def sec_copies(st):
         sa = rand_spec(rng, big=rng.random() < 0.2, unit=rng.random() < 0.2)
         a = build(sa)
         _fold_some(rng, a)
+        # history: the original has already been asked for other views (a copy must not depend on that)
+        warm = []
+        for _ in range(rng.choice([0, 1, 2, 3])):
+            wn, wf = rng.choice(WARMUPS)
+            if attempt(lambda: wf(a))[0] == 'ok':
+                warm.append(wn)
         oa, ca = xobs(a), cache_obs(a)
         kind = sa['kind']
         back = None
@@ -219,7 +241,7 @@ def sec_copies(st):
             way = lambda a, other=other: C[kind].from_fingerprint(C[other].from_fingerprint(a))
             back = (other, representable)
         rc = attempt(lambda: way(a))
-        pl = {'a': xobs_json(oa), 'way': wname}
+        pl = {'a': xobs_json(oa), 'way': wname, 'views_taken_from_the_original_before': warm}
         if rc[0] != 'ok':
             st.prop_fail('copy:raised', 'copy by %s raised %s' % (wname, rc[1]), pl)
             continue
@@ -243,6 +265,14 @@ def sec_copies(st):
                 st.prop_fail('copy:cache-differs', 'fold cache of the copy differs', dict(pl, cache=ca, cache_copy=cache_obs(cp)))
         elif content(oc) == content(oa) and not all(v == 1 for _, v in oa['cnt']):
             pass
+        # the copy's own views are those of a freshly built equal fingerprint, whatever the original was asked before
+        if back is None and all(v <= 65535 for _, v in oa['cnt']):
+            for vn, vf in VIEWS:            # successive views on the one copy, each against a newly built fingerprint
+                v1, v2 = attempt(lambda: vf(cp)), attempt(lambda: vf(build(sa)))
+                if v1 != v2:
+                    st.prop_fail('copy:history-dependent', '%s of the copy (by %s, original viewed as %s before) differs from that of a fresh equal fingerprint' % (vn, wname, warm),
+                                 dict(pl, view=vn, on_copy=str(v1)[:400], on_fresh=str(v2)[:400]))
+                    break
         # ... that shares no mutable state
         shared = identity_shared(a, cp)
         if shared:
@@ -315,7 +345,8 @@ def run(ctx):
                             'each pair compared with ==, !=, __eq__, __ne__ in both orders; transitivity/reflexivity/symmetry triples; copies by '
                             'from_fingerprint / deepcopy / pickle / conversion to another kind and back, followed by mutation of one side (props, name, '
                             'level, counts dict in place and through the setter, index buffer in place, fold cache, nested cached folds) and re-observation '
-                            'of the other side incl. its fold caches.  Non-trivial: both operands non-empty (copies: non-empty); distinct by full input.')
+                            'of the other side incl. its fold caches; before copying 0-3 other views (bool/float/default sparse vectors, RDKit, pickle) are taken from the original and '
+                            'afterwards the copy\'s sparse vectors are compared with those of a freshly built equal fingerprint.  Non-trivial: both operands non-empty (copies: non-empty); distinct by full input.')
     ctx.coverage['input_distribution'] = st.dist
     ctx.assumptions += [
         'dict equality of the counts, np.array_equal, copy/pickle machinery behave as modelled; exercised by the correspondence only',
